@@ -96,5 +96,15 @@ class _SQLLineageConfigLoader:
             value = cast(value)
         return value
 
+    def _after_fork_in_child(self) -> None:
+        # only the forking thread exists in the child: overrides of the parent's other threads must not be inherited
+        # by new threads of the child that happen to be given the same identifier
+        thread_id = self.get_ident()
+        for other in [k for k in self._thread_config if k != thread_id]:
+            del self._thread_config[other]
+        self._thread_in_context_manager.intersection_update({thread_id})
+
 
 SQLLineageConfig = _SQLLineageConfigLoader()
+if hasattr(os, "register_at_fork"):
+    os.register_at_fork(after_in_child=SQLLineageConfig._after_fork_in_child)
